@@ -662,7 +662,14 @@ def differential(case, d, run=cli_invoke):
                 ok = values_equal(got, exp['json'], 0)
             else:
                 got = text
-            marked = [ln.split('(*)')[1].split()[0] for ln in r['stdout'].split('\n') if '(*)' in ln]
+            # the measurement table lists the measurements in workspace order, the one in use prefixed with (*); rows are matched by
+            # position (a name may be empty or contain blanks)
+            lines = r['stdout'].split('\n')
+            head = [k for k, ln in enumerate(lines) if ln.split()[:3] == ['measurement', 'poi', 'parameters']]
+            rows = lines[head[-1] + 2:head[-1] + 2 + len(exp['json']['measurements'])] if head else []
+            marked = [m[0] for m, ln in zip(exp['json']['measurements'], rows) if ln.lstrip().startswith('(*)')]
+            if len(rows) != len(exp['json']['measurements']) or sum('(*)' in ln for ln in lines) != len(marked):
+                marked = ['<unreadable table>'] + marked
             if marked != [exp['chosen']]:
                 return 'value', 'the table marks measurement %r as the one in use, the library uses %r' % (marked, exp['chosen']), det
         elif cmd == 'patchset verify':
@@ -865,7 +872,7 @@ def gen_cases(ctx, rng):
         combos = rng.sample(combos, 7) + [('shifted', [patch], 'q', 'minuit')]
     for meas, pt, ts, opt in combos:
         c = dict(cmd='cls', ws=ws, via=rng.choice(['file', 'stdin']), out=rng.choice(['stdout', 'file']), test_stat=ts, optimizer=opt,
-                 test_poi=rng.choice([1.0, 0.5, 2.25]))
+                 test_poi=rng.choice([1.0, 0.5, 2.25, 0, 0.0]))
         if meas:
             c['measurement'] = meas
         if pt:
@@ -929,6 +936,8 @@ def gen_cases(ctx, rng):
             cases.append(dict(cmd='cls', ws=w, via=rng.choice(['file', 'stdin']), out=rng.choice(['stdout', 'file']), measurement=rng.choice([None, 'shifted', 'nominal']),
                               patches=rng.choice([[], [pt]]), test_stat=rng.choice(['q', 'qtilde']), optimizer=rng.choice(['scipy', 'minuit']),
                               test_poi=round(rng.uniform(0.2, 3), 2), backend=rng.choice(['numpy', 'jax'])))
+    # --- option values that are falsy in Python ---
+    cases += falsy_value_cases(ctx, rng)
     # --- XML <-> JSON ---
     for i in range(ctx.n(4, 25)):
         w = spec_ws(rng)
@@ -939,6 +948,70 @@ def gen_cases(ctx, rng):
             c['patches'] = [[{'op': 'replace', 'path': '/channels/0/samples/0/data', 'value': [float(x) + 1.5 for x in w['channels'][0]['samples'][0]['data']]}]]
         cases.append(c)
         cases.append(dict(cmd='xml2json', ws=w, out=rng.choice(['stdout', 'file']), moved=rng.random() < 0.4, validation_as_error=rng.choice([True, False])))
+    return cases
+
+
+def falsy_value_cases(ctx, rng):
+    """every option at the values that are falsy in Python and still legal: numeric options at 0 / 0.0 / -0.0 (and a negative
+    value), string options at the empty string -- both where '' names something (a measurement, a sample may be called '') and
+    where it names nothing (then command line and library must fail alike) --, repeatable options given once with '', optimiser
+    settings at 0.  The expected value is always the library call with literally the same value."""
+    q = ctx.quick
+    cases = []
+    ws = infer_ws(rng, 1)
+    # a measurement whose name is the empty string (schema: any string), configured differently from the default one
+    ws['measurements'].append({'name': '', 'config': {'poi': 'mu', 'parameters': [{'name': 'bkgnorm', 'inits': [0.7], 'fixed': True},
+                                                                                   {'name': 'mu', 'bounds': [[-3, 9]], 'inits': [0.25]}]}})
+    patch = infer_patch(rng, ws)
+    # --test-poi: zero in every spelling, for both statistics, default and named measurements; a negative value (inside the bounds of
+    # the '' measurement, outside those of the others: qtilde is then refused by the library)
+    zeros = [0, 0.0, -0.0]
+    combos = list(itertools.product(zeros, ['qtilde', 'q'], [None, 'shifted', '']))
+    for poi, ts, meas in (rng.sample(combos, 5) if q else combos):
+        c = dict(cmd='cls', ws=ws, via=rng.choice(['file', 'stdin']), out=rng.choice(['stdout', 'file']), test_poi=poi, test_stat=ts)
+        if meas is not None:
+            c['measurement'] = meas
+        cases.append(c)
+    cases.append(dict(cmd='cls', ws=ws, via='file', out='stdout', test_poi=0, patches=[patch], optimizer='minuit'))
+    cases.append(dict(cmd='cls', ws=ws, via='file', out='stdout', test_poi=-0.5, measurement='', test_stat='q'))
+    cases.append(dict(cmd='cls', ws=ws, via='file', out='stdout', test_poi=rng.choice([-0.5, -1, -2.0]), test_stat=rng.choice(['q', 'qtilde'])))
+    cases.append(dict(cmd='cls', ws=ws, via='file', out='stdout', test_poi=rng.choice([1, 2, 1e-3, 1e-9])))
+    if not q:
+        cases.append(dict(cmd='cls', ws=ws, via='file', out='stdout', test_poi=0, calctype='toybased'))
+        cases.append(dict(cmd='cls', ws=ws, via='file', out='stdout', test_poi=0.0, backend='jax'))
+    # --measurement '' (cls above), fit, inspect; on a workspace that has no such measurement as well
+    cases.append(dict(cmd='fit', ws=ws, via='file', out='stdout', measurement='', value=True))
+    cases.append(dict(cmd='inspect', ws=ws, via='file', out=rng.choice(['stdout', 'file']), measurement=''))
+    plain = infer_ws(rng, 1)
+    cases.append(dict(cmd=rng.choice(['fit', 'cls']), ws=plain, via='file', out='stdout', measurement=''))
+    cases.append(dict(cmd='inspect', ws=plain, via='file', out='stdout', measurement=''))
+    # optimiser settings at zero
+    cases.append(dict(cmd='fit', ws=ws, via='file', out='stdout', optimizer='minuit', optconf=['strategy=0', 'verbose=0'], value=True))
+    cases.append(dict(cmd=rng.choice(['fit', 'cls']), ws=ws, via='file', out='stdout', optconf=['maxiter=0']))
+    cases.append(dict(cmd='cls', ws=ws, via='file', out='stdout', optimizer='minuit', optconf=['tolerance=0'], test_poi=0))
+    # spec commands: '' as a name that exists / does not exist, '' as a new name
+    sw = copy.deepcopy(ws)
+    sw['channels'][0]['samples'].append({'name': '', 'data': [1.0 for _ in sw['channels'][0]['samples'][0]['data']],
+                                         'modifiers': [{'name': '', 'type': 'normsys', 'data': {'hi': 1.1, 'lo': 0.9}}]})
+    cases.append(dict(cmd='prune', ws=sw, via='file', out='stdout', _short=rng.random() < 0.5, measurement=['']))
+    cases.append(dict(cmd='prune', ws=sw, via='stdin', out='file', _short=rng.random() < 0.5, sample=['']))
+    cases.append(dict(cmd='prune', ws=sw, via='file', out='stdout', _short=rng.random() < 0.5, modifier=['']))
+    cases.append(dict(cmd='prune', ws=sw, via='file', out='stdout', _short=True, **{rng.choice(['channel', 'modifier_type']): ['']}))
+    cases.append(dict(cmd='rename', ws=sw, via='file', out='stdout', _short=rng.random() < 0.5, measurement=[['', 'named']]))
+    cases.append(dict(cmd='rename', ws=sw, via='file', out='stdout', _short=rng.random() < 0.5, sample=[['', 'extra']], modifier=[['', 'sysx']]))
+    cases.append(dict(cmd='rename', ws=sw, via='stdin', out='file', _short=rng.random() < 0.5, **rng.choice([dict(sample=[['signal', '']]), dict(measurement=[['nominal', '']])])))
+    cases.append(dict(cmd='rename', ws=plain, via='file', out='stdout', _short=True, channel=[['', 'x']]))
+    cases.append(dict(cmd='combine', ws=plain, ws2=plain, via='file', out='stdout', join=''))
+    cases.append(dict(cmd='digest', ws=plain, via='file', algorithm=[''], output_json=rng.choice([None, True, False])))
+    # patch sets: --name ''
+    one = copy.deepcopy(plain)
+    one['measurements'] = one['measurements'][:1]
+    ps = patchset_for(rng, one)
+    cases.append(dict(cmd='patchset extract', patchset=ps, name='', via='file', out='stdout'))
+    cases.append(dict(cmd='patchset apply', ws=one, patchset=ps, name='', via='file', out='stdout'))
+    # json2xml: directory / prefix options at ''
+    for k in (['specroot', 'dataroot', 'resultprefix'] if not q else rng.sample(['specroot', 'dataroot', 'resultprefix'], 2)):
+        cases.append(dict(cmd='json2xml', ws=plain, via='file', **{k: ''}))
     return cases
 
 
